@@ -19,6 +19,7 @@ var coffNamings = [][4]string{
 	{"e23456789012345678", "f234567890123456789", "g234567890123456789012345678901234567890", "h"},
 	{"prefix78a", "prefix78b", "prefix78", "prefix7"},
 	{"i23456789", "j23456789", "k23456789", "l23456789"},
+	{"longname_abc", "longname_ab", "longname_a", "longname_"},
 	{"m234567890123456789012345678901234567890", "m23456789012345678901234567890123456789X", "n2345678", "o23456789"},
 }
 
@@ -303,13 +304,13 @@ func judgeCoff(cc coffCase, rs []*core.Result, wantC08, wantC09 bool) core.Verdi
 
 func coffScenario(tier string, wantC08, wantC09 bool) *core.Scenario {
 	subsets := orderedSubsets()
-	namings := []int{0, 1, 2, 3, 4, 5}
+	namings := []int{0, 1, 2, 3, 4, 5, 6}
 	files := []int{0, 1, 2, 3, 4, 5, 6}
 	bodies := coffBodies
 	if tier != "thorough" {
-		namings = []int{1, 3}
+		namings = []int{1, 3, 5}
 		files = []int{0, 4, 5}
-		bodies = []string{"routines"}
+		bodies = []string{"routines", "large"}
 	}
 	return &core.Scenario{
 		Name: "coff_programs", Bound: -1,
@@ -322,8 +323,8 @@ func coffScenario(tier string, wantC08, wantC09 bool) *core.Scenario {
 			sub := subsets[c.Pick("subset", len(subsets))]
 			pl := c.Pick("placement", 3)
 			ex := c.Pick("extras", 4)
-			if body == "empty" || body == "one" {
-				// only the labels that exist can be declared as defined; others become undefined names (still valid cases)
+			if tier != "thorough" && body == "large" && (pl != 0 || ex != 0 || len(sub) > 2) {
+				return nil // quick tier: the >64 KiB body only with the simplest GLOBAL arrangements
 			}
 			cc := buildCoffCase(body, coffNamings[ni], sub, pl, ex, fi)
 			return &core.Case{
